@@ -582,3 +582,217 @@ Proof.
   rewrite run_ops_snd_app. rewrite nth_error_app2; rewrite run_ops_length; [|lia].
   rewrite Nat.sub_diag, run_ops_cons. reflexivity.
 Qed.
+
+(* ================================================================== *)
+(* The clause "a signature whose push reported success is listed for its
+   subject", judged by the oracle at full strength ([spec_ok], C19_Model.v),
+   and the KNOWN finding (footprint 1): it fails exactly in the squat states. *)
+
+(* the states that are NOT squat states: the digest of the manifest the push is
+   going to make is neither the envelope's nor that of "{}" (what sha256 gives),
+   and whatever content the store already holds under it is this very manifest,
+   stored as an image manifest *)
+Definition no_squat (st : state) (p : push) : Prop :=
+  p_mdg p <> p_bdg p /\ p_mdg p <> DG_EMPTY /\
+  forall e a, lookup_dg st (p_mdg p) = Some e ->
+    ensure_created (p_ann p) (p_now p) (p_cvalid p) = Some a ->
+    d_mt (e_d e) = MT_IMAGE /\ e_c e = man_content (p_msz p) (p_subj p) (blob_desc p) a.
+
+Lemma fresh_no_squat : forall st p, fresh_manifest st p -> no_squat st p.
+Proof. intros st p (L & N1 & N2). split; [exact N1|]. split; [exact N2|]. intros e a H. congruence. Qed.
+
+Lemma entry_is_man_entry : forall e p a, entry_ok e -> dg_of e = p_mdg p -> d_mt (e_d e) = MT_IMAGE ->
+  e_c e = man_content (p_msz p) (p_subj p) (blob_desc p) a -> e = man_entry p a.
+Proof.
+  intros [[mt dg sz] c s] p a (Hs & _ & Hu) Hd Hm Hc. unfold dg_of in Hd. cbn in *. subst. reflexivity.
+Qed.
+
+Lemma push_stores_manifest : forall st p s' bd md a, Inv st ->
+  push_sig st p = (s', RPush 0 bd md a) -> no_squat st p ->
+  In (man_entry p a) s' /\ In (env_entry p) s'.
+Proof.
+  intros st p s' bd md a IV HP (N1 & N2 & NS).
+  destruct (push_sig_cases st p) as [(_ & E)|[(_ & _ & E)|[(_ & _ & E)|(Lb & a' & EC & E)]]];
+    rewrite HP in E; inversion E; subst. clear E.
+  assert (He : In (env_entry p) (add_absent (env_entry p :: st) cfg_entry))
+    by (apply in_add_absent; left; reflexivity).
+  split; [|apply in_add_absent; exact He].
+  destruct (lookup_dg (add_absent (env_entry p :: st) cfg_entry) (dg_of (man_entry p a'))) as [e|] eqn:L.
+  - rewrite add_absent_some by (rewrite L; discriminate).
+    apply lookup_some_in in L as [Hi Hg]. change (dg_of (man_entry p a')) with (p_mdg p) in Hg.
+    apply add_absent_in in Hi as [[<-|Hi]| ->].
+    + exfalso. apply N1. symmetry. exact Hg.
+    + assert (X : e = man_entry p a').
+      { destruct IV as [ND FA]. rewrite Forall_forall in FA.
+        assert (Lk : lookup_dg st (p_mdg p) = Some e) by (rewrite <- Hg; apply lookup_in; auto).
+        destruct (NS e a' Lk EC) as [Hm Hc]. apply entry_is_man_entry; auto. }
+      subst e. apply in_add_absent. right. exact Hi.
+    + exfalso. apply N2. symmetry. exact Hg.
+  - rewrite add_absent_none by exact L. left; reflexivity.
+Qed.
+
+(* the positive clause, under the hypothesis that excludes exactly the squat
+   states: whatever happens afterwards, the manifest is in every successful
+   listing of its subject with the annotations reported, and fetches back *)
+Theorem pushed_then_listed : forall ops1 p ops2 st1' bd md a,
+  forallb wf_op (ops1 ++ OpPush p :: ops2) = true ->
+  push_sig (state_after ops1) p = (st1', RPush 0 bd md a) ->
+  no_squat (state_after ops1) p ->
+  let st := state_after (ops1 ++ OpPush p :: ops2) in
+  (forall its lg, list_sigs st (p_subj p) = (LOk its, lg) -> In (I md MT_NOTATION a) its) /\
+  ((p_msz p <= capM)%Z -> (c_sz (p_bc p) <= capB)%Z ->
+     fetch_sig st md = (FOk (p_bdg p) bd, [p_mdg p; p_bdg p])).
+Proof.
+  intros ops1 p ops2 st1' bd md a W HP NS st.
+  destruct (wf_mid _ _ _ W) as (W1 & _ & _).
+  destruct (push_stores_manifest _ _ _ _ _ _ (state_after_inv ops1 W1) HP NS) as [Hm He].
+  assert (Hm' : In (man_entry p a) st)
+    by (apply in_step_persists; [exact W|]; cbn [step]; rewrite HP; exact Hm).
+  assert (He' : In (env_entry p) st)
+    by (apply in_step_persists; [exact W|]; cbn [step]; rewrite HP; exact He).
+  pose proof (state_after_inv _ W) as IV. fold st in IV.
+  destruct (push_outcome _ _ _ _ _ _ _ HP) as [(_ & -> & -> & _ & _)|[(X & _)|[(X & _)|(X & _)]]];
+    try discriminate X.
+  split.
+  - intros its lg HL. rewrite (listing_ok_expected _ _ _ _ W HL). apply expected_in.
+    exists (man_entry p a). split; [exact Hm'|]. split; [apply man_entry_sig|reflexivity].
+  - intros Cm Cb. unfold fetch_sig.
+    change (is_sigmt (d_mt (man_desc p))) with true. cbn [negb].
+    change (d_sz (man_desc p)) with (p_msz p).
+    apply Z.ltb_ge in Cm. rewrite Cm.
+    pose proof (fetch_all_entry st (man_entry p a) IV Hm') as F1.
+    change (e_d (man_entry p a)) with (man_desc p) in F1. rewrite F1.
+    change (parsed (d_mt (man_desc p)) (e_c (man_entry p a))) with true. cbn [negb].
+    change (blobs_of (d_mt (man_desc p)) (e_c (man_entry p a))) with [blob_desc p].
+    cbv iota beta.
+    change (d_sz (blob_desc p)) with (c_sz (p_bc p)).
+    apply Z.ltb_ge in Cb. rewrite Cb.
+    pose proof (fetch_all_entry st (env_entry p) IV He') as F2.
+    change (e_d (env_entry p)) with (blob_desc p) in F2. rewrite F2. reflexivity.
+Qed.
+
+(* ... and the hypothesis is necessary: a content already stored under the
+   manifest's digest with another media type keeps the reported manifest
+   descriptor out of every later listing *)
+Theorem squatted_never_listed : forall ops1 p ops2 st1' bd md a e,
+  forallb wf_op (ops1 ++ OpPush p :: ops2) = true ->
+  push_sig (state_after ops1) p = (st1', RPush 0 bd md a) ->
+  lookup_dg (state_after ops1) (p_mdg p) = Some e -> d_mt (e_d e) <> MT_IMAGE ->
+  forall q its lg, list_sigs (state_after (ops1 ++ OpPush p :: ops2)) q = (LOk its, lg) ->
+    forall it, In it its -> i_d it <> md.
+Proof.
+  intros ops1 p ops2 st1' bd md a e W HP L Hm q its lg HL it Hin Heq.
+  destruct (push_outcome _ _ _ _ _ _ _ HP) as [(_ & _ & -> & _ & _)|[(X & _)|[(X & _)|(X & _)]]];
+    try discriminate X.
+  rewrite (listing_ok_expected _ _ _ _ W HL) in Hin.
+  apply expected_in in Hin as (e' & Hi' & _ & ->). cbn [i_d item_of] in Heq.
+  apply lookup_some_in in L as [Hi Hg].
+  assert (Hi2 : In e (state_after (ops1 ++ OpPush p :: ops2))) by (apply in_prefix_persists; auto).
+  assert (e' = e).
+  { apply (NoDup_map_inj_in dg_of (state_after (ops1 ++ OpPush p :: ops2))); auto.
+    - apply (state_after_inv _ W).
+    - unfold dg_of at 1. rewrite Heq. rewrite Hg. reflexivity. }
+  subst e'. apply Hm. rewrite Heq. reflexivity.
+Qed.
+
+(* histories without squat states *)
+Definition no_squat_history (ops : list op) : Prop :=
+  forall ops1 p ops2 s' bd md a, ops = ops1 ++ OpPush p :: ops2 ->
+    push_sig (state_after ops1) p = (s', RPush 0 bd md a) -> no_squat (state_after ops1) p.
+
+Lemma fresh_no_squat_history : forall ops, pushes_fresh ops -> no_squat_history ops.
+Proof. intros ops F ops1 p ops2 s' bd md a E HP. apply fresh_no_squat. eapply F; eauto. Qed.
+
+Fixpoint nosq (st : state) (ops : list op) : Prop :=
+  match ops with
+  | [] => True
+  | o :: ops' =>
+      match o with
+      | OpPush p => (exists s' bd md a, push_sig st p = (s', RPush 0 bd md a)) -> no_squat st p
+      | _ => True
+      end /\ nosq (fst (step st o)) ops'
+  end.
+
+Lemma nosq_of : forall ops st,
+  (forall ops1 p ops2 s' bd md a, ops = ops1 ++ OpPush p :: ops2 ->
+     push_sig (fst (run_ops st ops1)) p = (s', RPush 0 bd md a) -> no_squat (fst (run_ops st ops1)) p) ->
+  nosq st ops.
+Proof.
+  induction ops as [|o ops IH]; intros st H; [exact Logic.I|]. cbn [nosq]. split.
+  - destruct o as [p|d c|q|d]; auto. intros (s' & bd & md & a & HP).
+    apply (H [] p ops s' bd md a eq_refl HP).
+  - apply IH. intros ops1 p ops2 s' bd md a -> HP.
+    specialize (H (o :: ops1) p ops2 s' bd md a eq_refl).
+    rewrite run_ops_cons in H. cbn [fst] in H. auto.
+Qed.
+
+Definition owed_inv (ow : owed) (st : state) : Prop :=
+  forall s it, In (s, it) ow -> exists e, In e st /\ sig_manifest_of s e /\ it = item_of e.
+
+Lemma owed_inv_grows : forall ow st st1, grows st st1 -> owed_inv ow st -> owed_inv ow st1.
+Proof.
+  intros ow st st1 G H s it Hin. destruct (H s it Hin) as (e & Hi & R). exists e. split; [|exact R].
+  eapply grows_in; eauto.
+Qed.
+
+Lemma owed_ok_step : forall st o ow, Inv st -> owed_inv ow st -> owed_ok ow o (snd (step st o)) = true.
+Proof.
+  intros st o ow IV OW. destruct o as [p|d c|q|d]; try reflexivity.
+  cbn [step]. pose proof (list_sigs_spec st q IV) as HS.
+  destruct (list_sigs st q) as [r lg]. cbn [fst] in HS. subst r.
+  destruct (existsb (oversize_ref q) st); [reflexivity|]. cbn [snd owed_ok].
+  change (0 =? 0) with true. cbv iota. apply forallb_forall. intros [s it] Hin. cbn [fst snd].
+  destruct (desc_eqb s q) eqn:E; [|reflexivity]. cbn [negb orb].
+  apply desc_eqb_eq in E. subst s. destruct (OW q it Hin) as (e & Hi & Hs & ->).
+  apply existsb_exists. exists (item_of e). split; [|apply item_eqb_refl].
+  apply expected_in. exists e. auto.
+Qed.
+
+Lemma orc2_run : forall ops st ow, Inv st -> forallb wf_op ops = true -> nosq st ops -> owed_inv ow st ->
+  orc2 false st ow ops (snd (run_ops st ops)) = true.
+Proof.
+  induction ops as [|o ops IH]; intros st ow IV W NQ OW; [reflexivity|].
+  cbn [forallb] in W. apply andb_true_iff in W as [W1 W2]. cbn [nosq] in NQ. destruct NQ as [NQ1 NQ2].
+  rewrite run_ops_cons. cbn [snd orc2].
+  destruct (step_sim st o IV W1) as (H1 & H2 & H3 & H4).
+  rewrite H1, H2, (owed_ok_step st o ow IV OW). cbn [andb]. apply IH; auto.
+  destruct o as [p|d c|q|d]; try (cbn [owed_adv]; eapply owed_inv_grows; eauto; fail).
+  cbn [step snd fst] in *. destruct (push_result_shape st p) as (e & bd & md & a & R). rewrite R.
+    cbn [owed_adv andb negb]. rewrite andb_true_r.
+    destruct (e =? 0) eqn:E0; [|eapply owed_inv_grows; eauto].
+    apply N.eqb_eq in E0. subst e.
+    assert (HP : push_sig st p = (fst (push_sig st p), RPush 0 bd md a))
+      by (rewrite <- R; destruct (push_sig st p); reflexivity).
+    assert (NS : no_squat st p) by (apply NQ1; eauto).
+    destruct (push_stores_manifest _ _ _ _ _ _ IV HP NS) as [Hm _].
+    destruct (push_outcome _ _ _ _ _ _ _ HP) as [(_ & _ & -> & _ & _)|[(X & _)|[(X & _)|(X & _)]]];
+      try discriminate X.
+    intros s it [Eq|Hin].
+    - inversion Eq; subst. exists (man_entry p a). split; [exact Hm|]. split; [apply man_entry_sig|reflexivity].
+    - destruct (OW s it Hin) as (e & Hi & Rr). exists e. split; [eapply grows_in; eauto|exact Rr].
+Qed.
+
+(* the model satisfies the whole oracle on every history without squat states *)
+Theorem model_meets_oracle : forall i, wf i = true -> no_squat_history (i_ops i) ->
+  spec_ok i (model i) = true.
+Proof.
+  intros i W NS. unfold spec_ok, model. apply orc2_run; [apply Inv_nil|exact W| |intros s it []].
+  apply nosq_of. exact NS.
+Qed.
+
+(* ... and only there: the squat history followed by a listing. The oracle is
+   violated, the tolerant oracle is not, the footprint of the case is 1 *)
+Definition squat_input : input := mk_input (squat_ops1 ++ [OpPush squat_p; OpList (p_subj squat_p)]).
+Theorem model_violates_oracle_when_squatted :
+  wf squat_input = true /\ spec_ok squat_input (model squat_input) = false /\
+  spec_ok_known squat_input (model squat_input) = true /\
+  run [mk_case 7 squat_input (model squat_input)] = [(7, 2, 1)].
+Proof. repeat split; vm_compute; reflexivity. Qed.
+
+(* a pushed signature missing from a listing WITHOUT the manifest having been
+   there before is not covered by the known finding: footprint 0 *)
+Definition unlisted_case : case :=
+  mk_case 8 (mk_input [OpPush squat_p; OpList (p_subj squat_p)])
+            [RPush 0 (blob_desc squat_p) (man_desc squat_p) [(1,3); (5,6)]; RList 0 [] []].
+Theorem other_unlisted_is_not_known : run [unlisted_case] = [(8, 3, 0)].
+Proof. vm_compute. reflexivity. Qed.
